@@ -16,6 +16,7 @@ def to_trace(behs, lines):
     for x in lines:
         if x.get("ev") == "reset":
             b = behs[x["beh"]]
+            spanrec = {}
             out.append(dict({"ev": "reset", "beh": x["beh"]}, **fc.reset_fields(b)))
             continue
         if x.get("ev") != "op":
@@ -26,7 +27,9 @@ def to_trace(behs, lines):
         r["aborted"] = bool(x.get("aborted", False))
         r["mw"] = [{"sink": c["mw"], "lvl": c["lvl"], "tgt": c["tgt"]} for c in calls if "mw" in c]
         r["nometa"] = sum(1 for c in calls if "mw_nometa" in c)
-        r["writes"] = [dict(fc.project_write(c["raw"], b["format"], b["opts"], x), sink=c["w"]) for c in calls if "w" in c]
+        if x.get("op") == "record":
+            spanrec[x["s"]] = x["fields"][0]["val"]["v"]
+        r["writes"] = [dict(fc.project_write(c["raw"], b["format"], b["opts"], x, spanrec), sink=c["w"]) for c in calls if "w" in c]
         if x["op"] == "burst":
             n = x["n"]
             r["expect"] = [n * 10000 + j * 100 + i + 1 + 1000 for j in range(x["threads"]) for i in range(x["per"])]
@@ -58,7 +61,8 @@ def run(out, tier):
     out.distinct_nontrivial = len({json.dumps([b["format"], b["opts"], b["writer"]], sort_keys=True) for b in behs})
     out.rule = ("a case is one configuration (formatter full/compact/pretty/json x random option combination x span-event setting x one of 14 writer "
                 "expressions over 3 recording sinks with random level / target parameters) with a 40-operation history (events with contextual / explicit / "
-                "root parents at 5 levels x 2 targets on 1-3 threads, span lifecycle, events whose Debug field panics, bursts of 2-8 threads emitting "
+                "root parents at 5 levels x 2 targets on 1-3 threads, span lifecycle incl. a field recorded after creation, events whose Debug field panics, display "
+                "options set before or after the format is chosen, a sink that reports I/O errors in a quarter of the configurations, bursts of 2-8 threads emitting "
                 "simultaneously); every make_writer_for / write on a sink is recorded raw and projected; distinct = distinct configurations")
     out.samples = [{k: behs[0][k] for k in ("format", "opts", "writer")}, behs[0]["steps"][:4], [x for x in tr if x.get("writes")][:2]]
     out.assumptions = ["records are projected by regular expressions / the JSON parser (level token, span tokens s<k>x in textual order, message tokens m<n>)",
